@@ -24,13 +24,14 @@ import (
 )
 
 type c08Case struct {
-	Mode    string // resp-count | unary-nil | req-count
-	Carrier string
-	S       Script `json:",omitempty"` // resp-count
-	NilKind string `json:",omitempty"` // unary-nil: untyped | typed
-	Enc     string `json:",omitempty"` // unary-nil over HTTP: proto | json (raw HTTP request)
-	NReq    int    `json:",omitempty"` // req-count
-	Method  string `json:",omitempty"` // req-count: which single-request method
+	Mode       string // resp-count | unary-nil | req-count
+	Carrier    string
+	S          Script `json:",omitempty"` // resp-count
+	NilKind    string `json:",omitempty"` // unary-nil: untyped | typed
+	Enc        string `json:",omitempty"` // unary-nil over HTTP: proto | json (raw HTTP request)
+	NReq       int    `json:",omitempty"` // req-count
+	FirstEmpty bool   `json:",omitempty"` // req-count: the first request is the empty message (zero-length frame)
+	Method     string `json:",omitempty"` // req-count: which single-request method
 }
 
 func propC08(c c08Case) *Outcome {
@@ -165,7 +166,7 @@ func c08UnaryNil(c c08Case, o *Outcome) *Outcome {
 }
 
 func c08ReqCount(c c08Case, o *Outcome) *Outcome {
-	o.class("requests=%d/method=%s", c.NReq, c.Method)
+	o.class("requests=%d/method=%s/first-empty=%v", c.NReq, c.Method, c.FirstEmpty)
 	o.NonTrivial = c.NReq != 1
 	var mu sync.Mutex
 	var recvErrs []error
@@ -198,7 +199,11 @@ func c08ReqCount(c c08Case, o *Outcome) *Outcome {
 			return
 		}
 		for i := 0; i < c.NReq; i++ {
-			if err := cs.SendMsg(&pb.Message{Count: int32(i + 1)}); err != nil {
+			m := &pb.Message{Count: int32(i + 1)}
+			if i == 0 && c.FirstEmpty {
+				m = &pb.Message{}
+			}
+			if err := cs.SendMsg(m); err != nil {
 				break
 			}
 		}
@@ -250,7 +255,7 @@ func genC08(t *rapid.T) c08Case {
 		}
 		return c
 	case 1:
-		return c08Case{Mode: "req-count", Carrier: rapid.SampledFrom([]string{cHTTP, cHTTPMux}).Draw(t, "carrier"), NReq: rapid.IntRange(0, 4).Draw(t, "nreq"), Method: "ServerStream"}
+		return c08Case{Mode: "req-count", Carrier: rapid.SampledFrom([]string{cHTTP, cHTTPMux}).Draw(t, "carrier"), NReq: rapid.IntRange(0, 4).Draw(t, "nreq"), Method: "ServerStream", FirstEmpty: rapid.Bool().Draw(t, "firstempty")}
 	}
 	c := c08Case{Mode: "resp-count", Carrier: rapid.SampledFrom(sutCarriers).Draw(t, "carrier")}
 	c.S = genScript(t, scriptGenOpts{MaxMsg: 300, MDKeys: 1, Cardinality: true, NoEarly: true, OnlyKinds: []string{kClientStream}, PlainStatus: true})
